@@ -207,3 +207,30 @@ Theorem bulk_load_equals_single_loads :
   forall p d cs, good_params p -> db_wf d ->
     bulk_load p d cs = Some (forallb is_some (map (db_get d) cs), map (db_get d) cs).
 Proof. exact bulk_load_correct. Qed.
+
+(* ---------------------------------------------------------------- re-used Tile objects (file cache) *)
+
+(* FileCache keeps the location on the Tile object: once an object has its location (tile_at t a), a store through
+   it goes to the address a of the object, whatever dimensions the call passes ... *)
+Theorem tile_object_store_goes_to_its_address :
+  forall layout ext link s t a d b, tile_at layout ext t a -> t_stored t = false ->
+    fst (fst (tcall_step layout ext link s t (TStore d b))) = fstore layout ext link s a b.
+Proof. exact object_store_address. Qed.
+
+(* ... and so does a load (return value and content). *)
+Theorem tile_object_load_comes_from_its_address :
+  forall layout ext link s t a d, tile_at layout ext t a -> t_src t = None ->
+    snd (tcall_step layout ext link s t (TLoad d)) = Some (is_some (fload layout ext s a)) /\
+    t_src (snd (fst (tcall_step layout ext link s t (TLoad d)))) = fload layout ext s a.
+Proof. exact object_load_address. Qed.
+
+(* The single-tile flow of the tile manager (look-up with the dimensions of the request, miss, then
+   TileCreator._create_single_tile stores the same Tile object WITHOUT dimensions): the store reaches the address
+   with the dimensions of the request, because the first call fixed the location. *)
+Theorem lookup_then_store_without_dimensions_reaches_the_request_address :
+  forall layout ext link s x y z d b,
+    fs_read s (floc layout ext (mkAddr x y z d)) = None ->
+    let '(s1, t1, r1) := tcall_step layout ext link s (new_tile x y z) (TLoad d) in
+    r1 = Some false /\
+    fst (fst (tcall_step layout ext link s1 t1 (TStore [] b))) = fstore layout ext link s (mkAddr x y z d) b.
+Proof. exact lookup_then_store_without_dimensions. Qed.
